@@ -167,3 +167,55 @@ func SettleTimers(d time.Duration, ticks int, min, max time.Duration) bool {
 	}
 	return Quiesce(max)
 }
+
+// DeadlockInDump judges a goroutine dump (runtime.Stack(all); the first goroutine is the caller and is ignored):
+// it reports true if every other goroutine is in a blocked state (see blockedStates) and at least one of them is
+// blocked acquiring a sync.Mutex / sync.RWMutex from inside the library. Nothing in such a process can release that
+// lock any more, so the goroutine is blocked for ever. Used by the case watchdog, which otherwise reports "stuck" (inconclusive).
+func DeadlockInDump(dump []byte) (string, bool) {
+	blocks := bytes.Split(dump, []byte("\n\n"))
+	witness := ""
+	for i, b := range blocks {
+		if i == 0 || len(bytes.TrimSpace(b)) == 0 {
+			continue
+		}
+		nl := bytes.IndexByte(b, '\n')
+		head := b
+		if nl >= 0 {
+			head = b[:nl]
+		}
+		if !bytes.HasPrefix(head, []byte("goroutine ")) {
+			continue
+		}
+		l := bytes.IndexByte(head, '[')
+		r := bytes.LastIndexByte(head, ']')
+		if l < 0 || r < l {
+			continue
+		}
+		st := head[l+1 : r]
+		if j := bytes.IndexByte(st, ','); j >= 0 {
+			st = st[:j]
+		}
+		name := string(st)
+		if name == "semacquire" && bytes.Contains(b, []byte("sync.(*WaitGroup).Wait")) {
+			name = "sync.WaitGroup.Wait"
+		}
+		if !blockedStates[name] {
+			return "", false
+		}
+		if (name == "sync.Mutex.Lock" || name == "sync.RWMutex.Lock" || name == "sync.RWMutex.RLock") && witness == "" {
+			// the frame that called Lock must be library code
+			lines := bytes.Split(b, []byte("\n"))
+			for k := 1; k < len(lines); k++ {
+				ln := string(lines[k])
+				if len(ln) > 0 && ln[0] != '\t' && !bytes.HasPrefix(lines[k], []byte("sync.")) && !bytes.HasPrefix(lines[k], []byte("internal/")) && !bytes.HasPrefix(lines[k], []byte("runtime.")) {
+					if bytes.HasPrefix(lines[k], []byte("github.com/aperturerobotics/util/")) && !bytes.Contains(lines[k], []byte("/verifhook.")) {
+						witness = ln
+					}
+					break
+				}
+			}
+		}
+	}
+	return witness, witness != ""
+}
